@@ -57,6 +57,7 @@ type Frame struct {
 	rangeOf   []*ssa.Range
 	localVars map[string]Val
 	allocNames map[string]bool // names of locals that live in an allocation
+	paramCells map[string]Val  // parameters that live in an allocation: name -> cell
 	pendingLit string          // local just declared with a nil constant (see DebugRef)
 	localsOut map[*ssa.BasicBlock]map[string]Val
 	edges       map[*ssa.BasicBlock][]inEdge
@@ -799,6 +800,7 @@ func (fr *Frame) enterLoop(head *ssa.BasicBlock, phis []*ssa.Phi, outside func(*
 			entryVars[nm+"0"] = ov
 		}
 	}
+	fr.bindParamCells(entryVars)
 	env := fr.specEnv(fr.st)
 	env.vars = entryVars
 	env.pre = pre
@@ -908,6 +910,37 @@ func (fr *Frame) enterLoop(head *ssa.BasicBlock, phis []*ssa.Phi, outside func(*
 			fr.assume(b.And(b.BVCmp("bvsge", fr.vals[p].t, b.BV(^uint64(0), 64)), b.BVCmp("bvslt", fr.vals[p].t, b.BV(1<<62, 64))))
 		}
 	}
+	// called(X) is a fact about the whole execution so far: at the head of an arbitrary iteration a callee that the
+	// body can call may have been called by an earlier iteration
+	{
+		names, unknown := calleeNamesIn(loopBlocks(head))
+		for f := fr; f != nil; f = f.parent {
+			nm := map[string]*Term{}
+			for k, v := range f.lastCalled {
+				nm[k] = v
+			}
+			hv := func(k string) {
+				fv := b.Const("calledBefore_"+k, SBool)
+				if prev, ok := nm[k]; ok {
+					nm[k] = b.Or(prev, fv)
+				} else {
+					nm[k] = fv
+				}
+			}
+			for k := range names {
+				hv(k)
+			}
+			if unknown {
+				for k := range nm {
+					if k != calledAnyKey && !names[k] {
+						hv(k)
+					}
+				}
+				nm[calledAnyKey] = b.True()
+			}
+			f.lastCalled = nm
+		}
+	}
 	ls.headSt = fr.st.clone()
 	ls.reach = fr.reach
 	// 3. assume invariant
@@ -925,6 +958,7 @@ func (fr *Frame) enterLoop(head *ssa.BasicBlock, phis []*ssa.Phi, outside func(*
 			vars[nm+"0"] = phiOutside[p]
 		}
 	}
+	fr.bindParamCells(vars)
 	ls.entryVars = vars
 	env2 := fr.specEnv(fr.st)
 	env2.vars = vars
@@ -1071,6 +1105,7 @@ func (fr *Frame) backEdge(from, head *ssa.BasicBlock) {
 			}
 		}
 	}
+	fr.bindParamCells(vars)
 	env := fr.specEnv(fr.st)
 	env.vars = vars
 	env.pre = ls.preSt
@@ -1246,4 +1281,97 @@ func (fr *Frame) evalLocs(env *SpecEnv, x astExpr, c *Clause) (out []ModLoc) {
 		}
 	}()
 	return env.evalLocs(x)
+}
+
+
+// calledAnyKey marks a called-map in which a callee that has no entry may have been called (a loop body
+// that calls through function values has been passed).
+const calledAnyKey = "\x00any"
+
+// calledTerm looks up the condition under which callee name has been called so far.
+func calledTerm(b *TermBank, m map[string]*Term, name string) *Term {
+	if m == nil {
+		return b.False()
+	}
+	if t, ok := m[name]; ok {
+		return t
+	}
+	if _, any := m[calledAnyKey]; any {
+		t := b.Const("calledBefore_"+name, SBool)
+		m[name] = t
+		return t
+	}
+	return b.False()
+}
+
+// calleeNamesIn collects the (short) names of the functions and methods that the given blocks can call,
+// directly or through statically known callees; unknown reports a call through a function value.
+func calleeNamesIn(blocks map[*ssa.BasicBlock]bool) (names map[string]bool, unknown bool) {
+	names = map[string]bool{}
+	seen := map[*ssa.Function]bool{}
+	var visitFn func(fn *ssa.Function, depth int)
+	visitInstr := func(ins ssa.Instruction, depth int) {
+		var cc *ssa.CallCommon
+		switch x := ins.(type) {
+		case *ssa.Call:
+			cc = &x.Call
+		case *ssa.Go:
+			cc = &x.Call
+		case *ssa.Defer:
+			cc = &x.Call
+		case *ssa.MakeClosure:
+			if f, ok := x.Fn.(*ssa.Function); ok {
+				visitFn(f, depth+1)
+			}
+			return
+		default:
+			return
+		}
+		if cc.IsInvoke() {
+			names[cc.Method.Name()] = true
+			return
+		}
+		if f := cc.StaticCallee(); f != nil {
+			names[f.Name()] = true
+			visitFn(f, depth+1)
+			return
+		}
+		if _, ok := cc.Value.(*ssa.Builtin); ok {
+			return
+		}
+		unknown = true
+	}
+	visitFn = func(fn *ssa.Function, depth int) {
+		if fn == nil || seen[fn] || fn.Blocks == nil {
+			return
+		}
+		if depth > 8 {
+			unknown = true
+			return
+		}
+		seen[fn] = true
+		for _, blk := range fn.Blocks {
+			for _, ins := range blk.Instrs {
+				visitInstr(ins, depth)
+			}
+		}
+	}
+	for blk := range blocks {
+		for _, ins := range blk.Instrs {
+			visitInstr(ins, 0)
+		}
+	}
+	return names, unknown
+}
+
+
+// bindParamCells makes a parameter that lives in a cell readable in loop clauses: its name is the
+// current contents of the cell, name0 the value passed in.
+func (fr *Frame) bindParamCells(vars map[string]Val) {
+	for nm, cell := range fr.paramCells {
+		if pv, ok := fr.vars[nm]; ok {
+			vars[nm+"0"] = pv
+		}
+		vars[nm] = cell
+	}
 }
